@@ -307,6 +307,11 @@ def check_append(ctx):
         c = ctors[0]
         where = f"{arm.module.relpath}:{c.lineno}"
         d = Defs(arm.node)
+        # --- every path returns that construction (no shortcut returning an operand as it is: its
+        #     width and operations would bypass the max/concatenation)
+        rets_all = [r for r in body_walk(arm.node) if isinstance(r, ast.Return)]
+        shortcuts = [r for r in rets_all if not (r.value is c or (isinstance(r.value, ast.Name) and any(v is c for v in d.defs.get(r.value.id, []))))]
+        ctx.check(not shortcuts, R3, arm.key + ":all-paths-construct", "every return is the max-width concatenation", f"a path returns `{short(shortcuts[0].value) if shortcuts and shortcuts[0].value is not None else 'None'}` instead of the concatenated circuit: on that path the result does not get max(width of left, width of right) (e.g. adding an empty but wider circuit)", f"{arm.module.relpath}:{shortcuts[0].lineno}" if shortcuts else where)
         # --- width = max(left width, right width)
         w = width_expr(c)
         mx = is_max2(w) if w is not None else None
@@ -507,7 +512,7 @@ def run(ctx):
     check_lift_structure(ctx)
     ctx.floor("C01-D1", 8)
     ctx.floor("C01-D2", 2)
-    ctx.floor("C01-D3", 7)
+    ctx.floor("C01-D3", 9)
     ctx.floor("C01-D4", 1)
     ctx.floor("C01-D5", 5)
     ctx.floor("C01-D6", 4)
